@@ -49,7 +49,8 @@ class Contract:
     def __init__(self, qualname, params, returns=None, requires=(), ensures=(), raises=(),
                  modifies=(), trusted=False, inline=False, allocates=False, ghost=None,
                  hints=(), props=(), ensures_exc=None, note="", pure=False, assume_pre=(),
-                 entry_facts=(), checks_only=False, ghost_modifies=(), ghost_ensures=(), ghost_out=None):
+                 entry_facts=(), checks_only=False, ghost_modifies=(), ghost_ensures=(), ghost_out=None,
+                 ghost_ensures_exc=None):
         self.qualname = qualname
         self.params = OrderedDict((k, parse_kind(v)) for k, v in params.items())
         self.returns = parse_kind(returns) if returns is not None else None
@@ -73,6 +74,8 @@ class Contract:
         # applied at call sites, not checked against the body
         self.ghost_modifies = list(ghost_modifies)
         self.ghost_ensures = _clauses(ghost_ensures, "ghost")
+        # the same on exceptional exits (exception class -> clauses), e.g. "the call is logged even when it raises"
+        self.ghost_ensures_exc = {k: _clauses(v, f"ghost_{k}_") for k, v in (ghost_ensures_exc or {}).items()}
         # existential witnesses named after locals of the function at its return: name -> (local, kind)
         self.ghost_out = OrderedDict((k, (v[0], parse_kind(v[1]))) for k, v in (ghost_out or {}).items())
 
